@@ -25,7 +25,7 @@ func draw(t *rapid.T) *pbt.Case {
 		maxB, maxK = 18, 4
 	}
 	str := gen.Regular()
-	g := gen.Default(str).Boost(3, "sentinel", "mark", "risleaf", "domain")
+	g := gen.Default(str).Boost(3, "sentinel", "mark", "risleaf", "domain", "ukeymarker")
 	c := &pbt.Case{}
 	c.Spec = g.Draw(t, rapid.IntRange(1, maxB).Draw(t, "budget"))
 	gen.SprinkleEmpty(t, c.Spec)
